@@ -50,8 +50,12 @@ def surface(chk, repo, d, eq):
             captured = {}
 
             def call_hook(itp, fn_, args, kwargs, e, fr):
-                if getattr(fn_, 'name', None) == 'zgesv' or (hasattr(fn_, 'name') and str(fn_.name).endswith('zgesv')):
+                nm_ = str(getattr(fn_, 'name', ''))
+                if nm_.endswith('zgesv'):
                     captured['args'] = args
+                    return None
+                if 'cython_lapack' in nm_:
+                    captured.setdefault('other', []).append(nm_.split('.')[-1])
                     return None
                 return NotImplemented
             it = Interp(repo, hooks={'call': call_hook})
@@ -64,7 +68,8 @@ def surface(chk, repo, d, eq):
             where = mb.where(f)
             inst = f'surface layer {kind}{" static" if static else " dynamic" if kind == "liquid" else ""}, ytype {ytype}'
             if 'args' not in captured:
-                chk.ob('R02.1', inst + ': zgesv is called', False, 'no LAPACK call seen', where); continue
+                chk.ob('R02.1', inst + ': the surface system is handed to zgesv', False, f'no zgesv call seen (other LAPACK routines called: {captured.get("other", [])}): the system that is solved cannot be read off', where,
+                       key=f'R02.1|{kind}|{static}|{ytype}'); continue
             a = captured['args']
             n_ref, nrhs_ref, A, lda, ipiv, b, ldb, inf = a
             def deref(v): return v.frame.vars[v.name] if isinstance(v, Ref) else v
